@@ -7,6 +7,8 @@
              sub 0 = what runs, as (code, a, b) triples: 1 fn, 2 handler(a), 3 cleanup a, 4 handler("cleanup panic: b, index: a")
    family 3  [3; n; s; m]                       bulk stress, s submitters x m empty tasks, then Wait: [bodies run; handler calls; Wait returned]
    family 4  [4; n; hk; vk; k]                 hostile panic values in a child process: [survived; reports; inside at once afterwards; Wait returned]
+   family 5  [5; n; rounds; extra]             one limiter re-used after Wait(): rounds x (limit tasks ending together, Wait, limit+extra short tasks, Wait):
+             [bodies run; peak concurrency of the second half <= limit; Wait returned]
    sub 2 = relational judge on put_list case ++ put_list implementation-output -> [1] / [0]. *)
 From Coq Require Import List ZArith Bool Arith.
 From V Require Import Lib.Enc Gen.ConstsGoz Model.Limiter.
@@ -38,6 +40,9 @@ Definition recover_spec_out (hnil : bool) (fn : Z) (cs : list Z) : list Z :=
    final Wait returns - whatever the value is (vk does not occur on the right). *)
 Definition hostile_out (n hk k : Z) : list Z := [1; (if hk mod 4 =? 0 then 0 else k); Z.of_nat (eff_limit n); 1].
 
+(* family 5: every round runs 2*limit+extra bodies; the bound holds (c19_bound) and every Wait returns (c19_wait_after_all) *)
+Definition reuse_out (n rounds extra : Z) : list Z := [rounds * (2 * Z.of_nat (eff_limit n) + extra); 1; 1].
+
 Definition entry (sub : Z) (args : list Z) : list Z :=
   if sub =? 0 then
     match args with
@@ -46,6 +51,7 @@ Definition entry (sub : Z) (args : list Z) : list Z :=
     | 2 :: hnil :: fn :: cs => recover_out (bz hnil) fn cs
     | [3; n; s; m] => [s * m; 0; 1]
     | [4; n; hk; vk; k] => hostile_out n hk k
+    | [5; n; rounds; extra] => reuse_out n rounds extra
     | _ => [BADCASE]
     end
   else if sub =? 2 then
@@ -56,6 +62,7 @@ Definition entry (sub : Z) (args : list Z) : list Z :=
     | 1 :: n :: s :: m :: seed :: pk :: maxin :: tr => [zb (stress_spec n (s * m) seed pk maxin (dec_trace tr) out)]
     | 2 :: hnil :: fn :: cs => [zb (list_eqb out (recover_spec_out (bz hnil) fn cs))]
     | [3; n; s; m] => [zb (list_eqb out [s * m; 0; 1])]
+    | [5; n; rounds; extra] => [zb (list_eqb out [rounds * (2 * Z.of_nat (eff_limit n) + extra); 1; 1])]
     | [4; n; hk; vk; k] => [zb (list_eqb out [1; (if hk mod 4 =? 0 then 0 else k); Z.of_nat (eff_limit n); 1])]
     | _ => [BADCASE]
     end
